@@ -51,7 +51,7 @@ def fact_tags(facts, msgkey) -> List[str]:
     for f in facts or ():
         if f[0] in ("truthy", "falsy") and isinstance(f[1], tuple):
             r = render(f[1])
-            if r.endswith(".new_state"):
+            if r.endswith(".new_state") or r.endswith(".reboot") or r.endswith(".metric"):
                 out.append(f"{f[0]}:{r}")
         elif f[0] in ("in", "notin"):
             out.append(f"{f[0]}:{render(f[1])}@{render(f[2])}")
@@ -180,6 +180,7 @@ def record(analysis, it, cl: Classifier, out, ctxname: str, root="__init__:Gatew
         rec["ret_encodes"] = repr(enc) if enc is not None else None
         rec["ret_none"] = isinstance(v, Const) and v.value is None
         rec["ret_routed"] = enc is not None and any(r["ret"] == enc for r in rec["routes"])
+    rec["final_facts"] = fact_tags(st.facts, msgkey)
     rec["witness"] = describe_path(out, limit=18)
     return rec
 
